@@ -12,8 +12,9 @@ import (
 
 // ---- the type fragment of coq/Model/Obj.v (Inductive ty) ----
 
-// Ty is a type of the modelled fragment: Integer[lo,hi], String, Boolean, Optional[T], Array[T],
-// a reference to an Object type by name (obj), or some other type (other: only its text is kept).
+// Ty is a type of the modelled fragment: Integer[lo,hi], String, Boolean, Optional[T], Array[T], Any, Undef,
+// Variant[Undef, T] (varu), a reference to an Object type by name (obj), or some other type (other: only
+// its text is kept).
 type Ty struct {
 	K  string `json:"k"`
 	Lo *int64 `json:"lo,omitempty"` // nil = unbounded
@@ -29,7 +30,15 @@ func tBool() Ty               { return Ty{K: "bool"} }
 func tOpt(e Ty) Ty            { return Ty{K: "opt", E: &e} }
 func tArr(e Ty) Ty            { return Ty{K: "arr", E: &e} }
 func tObj(n string) Ty        { return Ty{K: "obj", N: n} }
+func tAny() Ty                { return Ty{K: "any"} }
+func tUndef() Ty              { return Ty{K: "undef"} }
+func tVarU(e Ty) Ty           { return Ty{K: "varu", E: &e} }
 func (t Ty) isOpt() bool      { return t.K == "opt" }
+
+// acceptsUndef: undef is an instance of the type (Optional[T], Any, Undef, Variant[Undef, T]).
+func (t Ty) acceptsUndef() bool {
+	return t.K == "opt" || t.K == "any" || t.K == "undef" || t.K == "varu"
+}
 func (t Ty) equal(o Ty) bool  { return t.Text() == o.Text() }
 func bound(p *int64) string {
 	if p == nil {
@@ -54,6 +63,12 @@ func (t Ty) Text() string {
 		return "Optional[" + t.E.Text() + "]"
 	case "arr":
 		return "Array[" + t.E.Text() + "]"
+	case "any":
+		return "Any"
+	case "undef":
+		return "Undef"
+	case "varu":
+		return "Variant[Undef, " + t.E.Text() + "]"
 	case "obj", "other":
 		return t.N
 	}
@@ -82,6 +97,12 @@ func (t Ty) Gallina() string {
 		return "(TOptional " + t.E.Gallina() + ")"
 	case "arr":
 		return "(TArray " + t.E.Gallina() + ")"
+	case "any":
+		return "TAny"
+	case "undef":
+		return "TUndef"
+	case "varu":
+		return "(TVarUndef " + t.E.Gallina() + ")"
 	case "obj":
 		return "(TObj " + gS(t.N) + ")"
 	case "other":
@@ -107,6 +128,24 @@ func parseTy(s string) Ty {
 		return tStr()
 	case "Boolean":
 		return tBool()
+	case "Any":
+		return tAny()
+	case "Undef":
+		return tUndef()
+	case "Optional": // Optional[Any] is the default Optional
+		return tOpt(tAny())
+	case "Array": // Array[Any] is the default Array
+		return tArr(tAny())
+	}
+	if in, ok := inner("Variant"); ok {
+		// only the form Variant[Undef, T] (two members, Undef first) is in the fragment
+		if strings.HasPrefix(in, "Undef,") {
+			e := parseTy(in[len("Undef,"):])
+			if e.K != "other" {
+				return tVarU(e)
+			}
+		}
+		return Ty{K: "other", N: s}
 	}
 	if in, ok := inner("Integer"); ok {
 		ps := strings.Split(in, ",")
@@ -412,12 +451,26 @@ func instOf(t Ty, v RV) bool {
 			}
 		}
 		return true
+	case "any":
+		return true
+	case "undef":
+		return v.K == "undef"
+	case "varu":
+		return v.K == "undef" || instOf(*t.E, v)
 	}
 	return false
 }
 
-// assignable is the tiny Go reference for IsAssignable(a, b) on the fragment.
+// assignable is the tiny Go reference for IsAssignable(a, b) on the fragment: Any accepts everything; an
+// Optional[b'] or Variant[Undef, b'] is accepted by whoever accepts undef and b'; Optional[a'] and
+// Variant[Undef, a'] accept Undef and what a' accepts.
 func assignable(a, b Ty) bool {
+	if a.K == "any" {
+		return true
+	}
+	if b.K == "opt" || b.K == "varu" {
+		return a.acceptsUndef() && assignable(a, *b.E)
+	}
 	switch a.K {
 	case "int":
 		if b.K != "int" {
@@ -430,13 +483,12 @@ func assignable(a, b Ty) bool {
 		return b.K == "str"
 	case "bool":
 		return b.K == "bool"
-	case "opt":
-		if b.K == "opt" {
-			return assignable(*a.E, *b.E)
-		}
-		return assignable(*a.E, b)
+	case "opt", "varu":
+		return b.K == "undef" || assignable(*a.E, b)
 	case "arr":
 		return b.K == "arr" && assignable(*a.E, *b.E)
+	case "undef":
+		return b.K == "undef"
 	}
 	return false
 }
